@@ -43,6 +43,13 @@ func LaplacianSmooth(m modeling.Mesh, attribute string, iterations int, smoothin
 
 	for i := 0; i < iterations; i++ {
 		for vi, vertex := range vertices {
+			// A vertex no primitive references has no neighbours to move
+			// towards; dividing by its neighbour count of 0 would turn it
+			// into NaN.
+			if lut.Count(vi) == 0 {
+				continue
+			}
+
 			var sum vector3.Float64
 
 			for vn := range lut.Lookup(vi) {
@@ -77,6 +84,10 @@ func LaplacianSmoothAlongAxis(m modeling.Mesh, attribute string, iterations int,
 
 	for i := 0; i < iterations; i++ {
 		for vi, vertex := range vertices {
+			if lut.Count(vi) == 0 {
+				continue
+			}
+
 			var sum vector3.Float64
 
 			for vn := range lut.Lookup(vi) {
